@@ -1,18 +1,33 @@
 #!/bin/bash
 # Runs every mutant in /verif/mutants against its property's quick check (scratch copies of /repo only) and writes mutants/RESULTS.md
+# usage: tools/run_mutants.sh            -> all mutants, RESULTS.md rewritten
+#        tools/run_mutants.sh <name>...  -> only these (basename without .diff): their rows are replaced / appended in RESULTS.md
 cd /verif
 OUT=mutants/RESULTS.md
+row() {
+  f=$1; m=$(basename $f .diff); p=${m%%-*}
+  res=$(TAILN=2 tools/mutant.sh $f $p quick 2>&1 | grep -v "^error:")
+  rc=$(echo "$res" | grep -o "mutant rc=[0-9]*" | cut -d= -f2)
+  new=$(echo "$res" | grep -o "new=[0-9]*" | head -1 | cut -d= -f2)
+  if echo "$res" | grep -q PATCH-FAILED; then det="patch no longer applies"; elif [ "$rc" = "1" ]; then det="yes"; else det="NO"; fi
+  echo "| $m | $p | $det | ${new:-?} |"
+}
+if [ $# -gt 0 ]; then
+  for m in "$@"; do
+    r=$(row mutants/$m.diff)
+    grep -v "^| $m |" $OUT > $OUT.tmp
+    # keep the table sorted: insert before the trailing blank line + note
+    { grep "^| C\|^|---\|^| mutant\|^# " $OUT.tmp | grep -v "^| C"; { grep "^| C" $OUT.tmp; echo "$r"; } | sort; echo ""; grep -v "^|\|^#\|^$" $OUT.tmp; } > $OUT
+    rm -f $OUT.tmp
+  done
+  exit 0
+fi
 echo "# Mutation self-test (quick tier): every patch in this directory applied to a scratch copy of /repo" > $OUT
 echo "" >> $OUT
 echo "| mutant | property | detected | new violation keys |" >> $OUT
 echo "|---|---|---|---|" >> $OUT
 for f in mutants/*.diff; do
-  m=$(basename $f .diff); p=${m%%-*}
-  res=$(TAILN=2 tools/mutant.sh $f $p quick 2>&1 | grep -v "^error:")
-  rc=$(echo "$res" | grep -o "mutant rc=[0-9]*" | cut -d= -f2)
-  new=$(echo "$res" | grep -o "new=[0-9]*" | head -1 | cut -d= -f2)
-  if echo "$res" | grep -q PATCH-FAILED; then det="patch no longer applies"; elif [ "$rc" = "1" ]; then det="yes"; else det="NO"; fi
-  echo "| $m | $p | $det | ${new:-?} |" >> $OUT
+  row $f >> $OUT
 done
 echo "" >> $OUT
 echo "Mutants named *-unfix-* are the reverse of a 'fix:' commit in /repo (the defect the check originally found)." >> $OUT
